@@ -8,6 +8,11 @@ HERE = os.path.dirname(os.path.dirname(os.path.abspath(__file__)))
 TECH = "deterministic simulation with fault injection: seeded search over environment schedules, operation histories and I/O faults against the real tool in fresh interpreters; differential / reference-model oracles; minimised replay files"
 
 CHECKS = {
+    "C01": {
+        "text": "Scoped claim, seeded exploration with fault injection: for generated packages, the repo's corpus and a fixed list of probe packages the real CLI runs (a) fault-free under sampled schedules x all 64 option combinations - the outcome must be 'completed' (API JSON loadable, every written stub present) or the documented rejection, never an exception raised by the tool's own code, never a death, a livelock of the docstring-loader retry loop or a watchdog timeout; (b) with 1-2 injected write-side faults (ENOSPC/EACCES/EROFS/EIO/EMFILE at mkdir/touch/open/write/close, short writes; points stratified by file class and life-cycle step of a reference run) - the run terminates, a run that reports success has exactly the reference output (no silently lost or truncated file, including files whose close is left to the finaliser), a run that fails fails with the injected error itself (identity or explicit cause), not with a secondary internal error; (c) into an obstructed output directory - failure only with the file system's own OSError. The 'for all programs' quantifier is only sampled by the workload.",
+        "design_ref": "DESIGN.md §5.1",
+        "note": "Trusted: seams/fault injection of vsim/child.py, exception classification by innermost frame under <repo>/src/safeds_stubgen. Read-side faults are out of scope of the property ('any package the type checker can load'). Input forms outside the workload are not covered (a program fuzzer is a different technique); known crashing input forms found on the way were repaired by 'fix:' commits and are kept as probe packages.",
+    },
     "C08": {
         "text": "Seeded exploration: for each generated or corpus package the real CLI is run in fresh interpreters under the canonical schedule twice and under sampled schedule vectors (PYTHONHASHSEED, directory enumeration permutation, Module object-hash permutation, working directory incl. non-writable, invocation style/sys.path, path spellings incl. symlinked parents, environment/umask); the output trees must be byte-identical. Evidence of determinism on the explored schedules, not a proof over all 2^32 seeds x n! orders.",
         "design_ref": "DESIGN.md §5.2",
